@@ -130,7 +130,23 @@ def run_unit(unit, rng, ctx):
         pn[ax] = int(rng.integers(shape[ax]))
         pw = [0, 0, 0]
         pw[ax], pw[o1], pw[o2] = int(rng.integers(shape[ax])), 2, int(rng.integers(shape[o2]))
-        channels = ('xyz'[ax], [pn, pw] if rng.integers(3) else [pn])
+        pk_list = [pn, pw] if rng.integers(3) else [pn]
+        if shape[o1] >= 5 and rng.integers(2):
+            # an isolated admissible pocket (one voxel surrounded by blocked ones, cannot percolate), listed first
+            pocket = [0, 0, 0]
+            pocket[ax], pocket[o1], pocket[o2] = int(rng.integers(shape[ax])), shape[o1] - 1, 0
+            nb_free = False
+            for d_ in (-1, 0, 1):
+                for e_ in (-1, 0, 1):
+                    for g_ in (-1, 0, 1):
+                        q = [(pocket[0] + d_) % shape[0], (pocket[1] + e_) % shape[1], (pocket[2] + g_) % shape[2]]
+                        if (d_, e_, g_) != (0, 0, 0) and Fd0[tuple(q)] < 1e7 and q != pocket:
+                            nb_free = True
+            if not nb_free:
+                Fd0[tuple(pocket)] = 0.01
+                pk_list = [pocket] + pk_list
+                ctx.count('peak_lists_starting_with_an_isolated_pocket')
+        channels = ('xyz'[ax], pk_list)
         F = FreeEnergyVolume(data=Fd0, lattice=Lattice(m))
         src = 'channels'
         ctx.count('grids_with_two_disconnected_percolating_networks')
@@ -280,10 +296,13 @@ def run_unit(unit, rng, ctx):
         percolate = ''.join(ax for ax in 'xyz' if rng.integers(2)) or str(rng.choice(['x', 'y', 'z']))
         n_peaks = int(rng.integers(1, 5))
         peaks = np.array([nodes[int(i)] for i in rng.choice(len(nodes), size=min(n_peaks, len(nodes)), replace=False)])
-        if rng.uniform() < 0.1:
+        if rng.uniform() < 0.25:
+            # peaks that cannot start a percolating path (on a blocked voxel) are listed anywhere, also first
             blocked = [tuple(int(x) for x in ix) for ix in np.argwhere(~((Fd >= 0) & (Fd < thr)))]
             if blocked:
-                peaks = np.vstack([peaks, blocked[0]])
+                peaks = np.vstack([peaks, blocked[int(rng.integers(len(blocked)))]])
+                peaks = peaks[rng.permutation(len(peaks))]
+                ctx.count('peak_lists_with_a_blocked_voxel')
         if channels is not None:
             percolate, peaks = channels[0], np.array(channels[1])
         what = f'{what0} percolate={percolate} peaks={peaks.tolist()}'
